@@ -214,7 +214,20 @@ def run_scale(case):
     true_diag = float(np.linalg.norm(sens[0] - sens[3]))
     res = LighthouseSystemScaler.scale_diagonals(est_bs, est_cf, samples, true_diag)
     check('diagonals', res, None)
-    if abs(res[2] - k) > 5e-5 * k:
+    # the library keeps ray directions in single precision: each intersection point is off by up to about
+    # 1.2e-7 * range / cos(incidence); the tolerance follows the worst ray of the case (grazing rays amplify it)
+    worst = 0.0
+    for cf in true_cf:
+        normal = cf.rot_matrix @ np.array([0.0, 0.0, 1.0])
+        for bs in true_bs.values():
+            ray = cf.translation - bs.translation
+            rng_ = float(np.linalg.norm(ray))
+            cosi = abs(float(ray @ normal)) / rng_
+            worst = max(worst, 1.2e-7 * rng_ / max(cosi, 1e-6))
+    tol = max(5e-5, 4.0 * worst / true_diag)
+    if tol > 1e-3:
+        out.feat('excluded-grazing-rays')
+    elif abs(res[2] - k) > tol * k:
         out.fail('scale:diagonal-factor', '%s: factor %.6f, the system was shrunk by %.6f' % (desc, res[2], k))
     # the library's own deck constant must be that diagonal
     lib = float(LhDeck4SensorPositions.diagonal_distance)
